@@ -15,7 +15,7 @@ LEVEL_TEXT = ('Radiogenic additivity/half-life/linearity/reference-time facts ar
               'region values are compared with the stated laws and derivative signs are decided in a sign domain; what the sign domain cannot settle is listed as undecided, never as a violation.')
 LEVEL_NOTE = ('Trusted: front-end, interpreter, differentiation and sign rules, positivity assumptions listed in the evidence. Not decided: Arrhenius with the extra T factor (not monotone for T > E/R), '
               'the float-eps switch in `convection` at contrasts below 2.2e-16.')
-EXPLANATION = 'R19.1 radiogenics; R19.2 piecewise region tables and floors (melting laws); R19.3 kind consistency of mask-sum branches; R19.4 derivative signs (cooling, viscosity, Henning viscosity).'
+EXPLANATION = 'R19.8 the radiogenic laws evaluated at the shipped isotope tables keep every intermediate inside the doubles wherever the heating is; R19.1 radiogenics; R19.2 piecewise region tables and floors (melting laws); R19.3 kind consistency of mask-sum branches; R19.4 derivative signs (cooling, viscosity, Henning viscosity).'
 EXPLANATION += ' R19.7 the array twin: every interpreted call repeated with array arguments (mutable cells) returns the scalar values element for element and leaves the arguments intact.'
 
 
@@ -75,6 +75,50 @@ def run(chk):
     # default reference time (argument omitted): the same law with t_ref = the default
     call_paths(mr, f_iso, [t, mass, tuple(fr), tuple(cc), tuple(hl), tuple(hp)]); it.call(mr, f_fix, [t, mass, q, ahl])
     chk.note_analysed('functions', 'radiogenic_models.isotope/fixed/off')
+    # R19.8 "equals the reference value at the reference time", "halves after one half-life" in doubles: with the isotope tables the package ships (half-lives from 0.72 Myr to
+    # 14 Gyr quoted at 4600 Myr) and times from the formation of the solar system to a few Gyr past the reference time, every product and exponential the law is evaluated
+    # through is an ordinary double whenever the heating itself is one.  exp(g (t - t_ref)) is; exp(-g t_ref) * exp(g t) is not (2^6389 * 2^-6389 for Al-26).
+    from .common import unrepresentable_intermediates
+    import tomllib, math
+    from fractions import Fraction as Fr
+    mdc = repo.by_path('TidalPy/defaultc.py')
+    cfg_txt = None
+    for n_ in ast.walk(mdc.tree):
+        if isinstance(n_, ast.Assign) and isinstance(n_.value, ast.Constant) and isinstance(n_.value.value, str) and 'known_isotope_data' in n_.value.value:
+            cfg_txt = n_.value.value
+    if cfg_txt is None:
+        raise AnalysisError('TidalPy/defaultc.py: the default configuration text (known_isotope_data) vanished')
+    known = tomllib.loads(cfg_txt)['physics']['radiogenics']['known_isotope_data']
+    ntab = 0
+    for tname, tab in sorted(known.items()):
+        rt = tab.get('ref_time', tab.get('reference_time', 4600.0))
+        isos = {k_: v_ for k_, v_ in tab.items() if isinstance(v_, dict)}
+        if not isos: continue
+        ntab += 1
+        args = [t, mass, tuple(X.const(Fr(str(v_['iso_mass_fraction']))) for v_ in isos.values()), tuple(X.const(Fr(str(v_['element_concentration']))) for v_ in isos.values()),
+                tuple(X.const(Fr(str(v_['half_life']))) for v_ in isos.values()), tuple(X.const(Fr(str(v_['hpr']))) for v_ in isos.values()), X.const(Fr(str(rt)))]
+        expr_ = X.lift(it.call(mr, f_iso, args))
+        hmin = min(float(v_['half_life']) for v_ in isos.values())
+        bad = []
+        for tv in (rt, rt - hmin, rt + hmin, rt - 100.0, rt + 100.0, rt / 2, 0.0, rt + 2000.0):
+            hz = unrepresentable_intermediates(expr_, {'time': repr(float(tv)), 'mass': '1e22', 'ln_half': repr(math.log(0.5))})
+            if hz:
+                bad.append(f't = {tv:g}: `{hz[0][0]}` = {hz[0][1]} {hz[0][2]}')
+        chk.ob('R19.8', f'isotope() with the shipped table {tname} ({len(isos)} isotopes, reference time {rt:g}): no intermediate leaves the range of doubles at times where the heating is representable', not bad,
+               '; '.join(bad[:2]), mr.where(f_iso), key=f'R19.8|isotope|{tname}', method='extended-range evaluation (mpmath) of every sub-expression of the extracted law at the shipped data')
+    # fixed(): the documented default reference time with average half-lives down to the shortest shipped one
+    for ahl_v in (0.72, 5.0, 100.0, 4500.0):
+        args = [t, mass, X.const(Fr('1e-11')), X.const(Fr(str(ahl_v)))]
+        expr_ = X.lift(it.call(mr, f_fix, args))
+        bad = []
+        for tv in (4600.0, 4600.0 - ahl_v, 4600.0 + ahl_v, 4500.0, 4700.0):
+            hz = unrepresentable_intermediates(expr_, {'time': repr(tv), 'mass': '1e22', 'ln_half': repr(math.log(0.5))})
+            if hz: bad.append(f't = {tv:g}: `{hz[0][0]}` = {hz[0][1]} {hz[0][2]}')
+        chk.ob('R19.8', f'fixed() with the default reference time and an average half-life of {ahl_v:g}: no intermediate leaves the range of doubles at times where the heating is representable', not bad,
+               '; '.join(bad[:2]), mr.where(f_fix), key=f'R19.8|fixed|{ahl_v:g}', method='extended-range evaluation (mpmath) of every sub-expression of the extracted law')
+    if ntab < 2:
+        raise AnalysisError(f'only {ntab} shipped isotope tables found')
+    chk.floor('R19.8', 6)
 
     # ------------------------------------------------------------------ R19.2 / R19.3 melting laws
     mm = repo.by_path('TidalPy/rheology/partial_melt/melting_models.py')
